@@ -5,7 +5,8 @@
   The store is an insertion-ordered association list.  `od*` are the primitives of a plain
   (ordered) dictionary; `cd*` are the methods of CaselessDict *as the code writes them*: the
   overridden ones fold the key with `up` (= `to_unicode(key).upper()`) and delegate to the
-  dictionary primitive, the inherited ones (`move_to_end`, `popitem`, views, `clear`) do not fold.
+  dictionary primitive (`move_to_end` included, since 991e646); the inherited ones (`popitem`,
+  views, `clear`) take no key.
   `up` is a parameter: Python's `str.upper` is Unicode, the driver instantiates it with ASCII
   `upper`, and the theorems use only `up (up k) = up k`.
 
@@ -196,8 +197,7 @@ inductive Op (V : Type) where
   | ior (other : List (Str × V))        -- `d |= other`
   | ror (other : List (Str × V))        -- `d = other | d`
   | fromkeys (ks : List Str) (v : V)    -- `d = type(d).fromkeys(ks, v)`
-  | moveToEnd (k : Str) (last : Bool)      -- key given as `str`
-  | moveToEndBytes (k : Str) (last : Bool) -- key given as the `bytes` that decode to `k`
+  | moveToEnd (k : Str) (last : Bool)
   | keys | values | items | len | clear | reversed
   | sortedKeys (order : List Str)
   | sortedItems (order : List Str)
@@ -226,11 +226,10 @@ def step (up : Str → Str) (s : Store V) : Op V → Store V × Out V
   | .ior other => (cdUpdate up s other, .none)
   | .ror other => (cdRor up s other, .none)
   | .fromkeys ks v => (cdFromKeys up ks v, .none)
-  | .moveToEnd k last =>                       -- inherited: the key is NOT folded
-    match odMoveToEnd s k last with
+  | .moveToEnd k last =>                       -- overridden since 991e646: folds like the others
+    match odMoveToEnd s (up k) last with
     | some s' => (s', .none)
     | none => (s, .err .KeyError)
-  | .moveToEndBytes _ _ => (s, .err .KeyError)  -- inherited: no `to_unicode`; no `bytes` key is ever stored
   | .keys => (s, .keys (odKeys s))
   | .values => (s, .vals (odVals s))
   | .items => (s, .items s)
@@ -269,7 +268,6 @@ def stepSpec (s : Store V) : Op V → Store V × Out V
     match odMoveToEnd s k last with
     | some s' => (s', .none)
     | none => (s, .err .KeyError)
-  | .moveToEndBytes _ _ => (s, .err .KeyError)  -- a dictionary with `str` keys has no `bytes` key
   | .keys => (s, .keys (odKeys s))
   | .values => (s, .vals (odVals s))
   | .items => (s, .items s)
@@ -301,7 +299,6 @@ def foldOp (up : Str → Str) : Op V → Op V
   | .ror other => .ror (other.map (foldPair up))
   | .fromkeys ks v => .fromkeys (ks.map up) v
   | .moveToEnd k last => .moveToEnd (up k) last
-  | .moveToEndBytes k last => .moveToEnd (up k) last   -- the caller decodes, then folds
   | op => op
 
 def run (up : Str → Str) : Store V → List (Op V) → Store V × List (Out V)
@@ -319,12 +316,9 @@ def runSpec : Store V → List (Op V) → Store V × List (Out V)
     (q.1, r.2 :: q.2)
 
 /-- the calls on which CaselessDict is known to differ from a dictionary keyed by folded names
-    (recorded findings): `pop` of a missing key without default, and `move_to_end` with a key
-    that is not already upper-case (or is `bytes`) while its folded form is present -/
+    (recorded finding): `pop` of a missing key without default -/
 def excluded (up : Str → Str) (s : Store V) : Op V → Bool
   | .pop k none => !odHas s (up k)
-  | .moveToEnd k _ => decide (up k ≠ k) && odHas s (up k)
-  | .moveToEndBytes k _ => odHas s (up k)
   | _ => false
 
 def runExcluded (up : Str → Str) : Store V → List (Op V) → Bool
